@@ -188,7 +188,14 @@ def lean_phase(prop, tier, report):
     obligations = []
     # one lock per property: lake builds of different properties touch disjoint targets
     # (shared modules are stable and already built), so checks run concurrently
-    with Lock(os.path.join(LEAN, ".verif.%s.lock" % prop["id"])):
+    import contextlib
+    with contextlib.ExitStack() as _locks:
+        # properties that regenerate the same Gen file must not interleave (one may be pointed at a
+        # different tree through VERIF_REPO): take one lock per Gen output, in sorted order, then the
+        # property's own lock
+        for _out in sorted({g["out"] for g in prop.get("gen", [])}):
+            _locks.enter_context(Lock(os.path.join(LEAN, ".verif.gen.%s.lock" % _out.replace("/", "_"))))
+        _locks.enter_context(Lock(os.path.join(LEAN, ".verif.%s.lock" % prop["id"])))
         gen_ok = regenerate(prop, report)
         # drivers first: they are needed for the correspondence even if a proof breaks
         drivers = sorted({t["driver_exe"] for t in prop.get("ties", []) if t.get("driver_exe")})
